@@ -55,8 +55,8 @@ type Device struct {
 
 	eventProcessMutex *sync.Mutex
 
-	octave   int8
-	semitone int8
+	octave   int
+	semitone int
 	channel  uint8
 	velocity uint8
 	// warning: currently lazy implementation
@@ -142,8 +142,8 @@ func NewDevice(
 		actionsPress:   actionsPress,
 		actionsRelease: actionsRelease,
 
-		octave:     int8(cfg.Config.Defaults.Octave),
-		semitone:   int8(cfg.Config.Defaults.Semitone),
+		octave:     cfg.Config.Defaults.Octave,
+		semitone:   cfg.Config.Defaults.Semitone,
 		channel:    uint8(cfg.Config.Defaults.Channel - 1),
 		multiNote:  []int{},
 		mapping:    cfg.Config.Defaults.Mapping,
@@ -484,8 +484,8 @@ func (d *Device) Status() string {
 }
 
 type State struct {
-	Octave   int8
-	Semitone int8
+	Octave   int
+	Semitone int
 	Channel  uint8
 	Notes    int
 	Mapping  string
